@@ -197,7 +197,11 @@ where
             _ => {
                 let was_animating = self.timelines.get(&self.current_state).is_some();
                 let will_animate = self.timelines.get(state).is_some();
-                if was_animating && !will_animate {
+                if will_animate {
+                    // Entering another animated state discards any remembered pause, so that a
+                    // later return to the paused state blends afresh instead of resuming stale.
+                    self.paused_animation = None;
+                } else if was_animating {
                     self.paused_animation = Some((self.current_state.clone(), self.state_duration));
                 }
                 self.blend_next_timeline(state);
